@@ -209,6 +209,41 @@ static uint64_t workload(uint64_t seed, long ops, int with_shared) {
     /* streaming decoder, encoders */
     size_t el = cbor_encode_uint(rnd(&r), out, 16);
     h = fnv(h, out, el);
+    {
+      uint32_t fb = (uint32_t)rnd(&r);
+      float ff;
+      memcpy(&ff, &fb, 4);
+      el = cbor_encode_half(ff, out, 16); h = fnv(h, out, el);
+      el = cbor_encode_single(ff, out, 16); h = fnv(h, out, el);
+      el = cbor_encode_double((double)ff, out, 16); h = fnv(h, out, el);
+      el = cbor_encode_negint(rnd(&r) >> (rnd(&r) % 64), out, 16); h = fnv(h, out, el);
+      el = cbor_encode_tag(rnd(&r) >> (rnd(&r) % 64), out, 16); h = fnv(h, out, el);
+      el = cbor_encode_map_start(rnd(&r) % 70000, out, 16); h = fnv(h, out, el);
+      /* the streaming decoder on its own (callbacks that do nothing), head by head */
+      size_t off = 0;
+      for (int g = 0; g < 64 && off < n; g++) {
+        struct cbor_decoder_result d = cbor_stream_decode(buf + off, n - off, &cbor_empty_callbacks, NULL);
+        h = fnv(h, &d.status, sizeof d.status);
+        h = fnv(h, &d.read, sizeof d.read);
+        if (d.status != CBOR_DECODER_FINISHED) break;
+        off += d.read;
+      }
+      /* text attached through the construction API, containers indexed and replaced */
+      static const char* texts[] = {"plain", "\xc3\xa9t\xc3\xa9", "\xe2\x82\xac\xf0\x9f\x98\x80", "bad\xff", "\xed\xa0\x80", ""};
+      cbor_item_t* tx = cbor_build_string(texts[rnd(&r) % 6]);
+      size_t cpn = cbor_string_codepoint_count(tx);
+      h = fnv(h, &cpn, sizeof cpn);
+      cbor_item_t* da = cbor_new_definite_array(3);
+      (void)cbor_array_push(da, tx); (void)cbor_array_push(da, tx);
+      (void)cbor_array_set(da, 2, tx); (void)cbor_array_replace(da, 0, tx);
+      cbor_item_t* got = cbor_array_get(da, 1);
+      cbor_decref(&got);
+      cbor_item_t* mp = cbor_new_definite_map(1);
+      (void)cbor_map_add(mp, (struct cbor_pair){.key = tx, .value = da});
+      size_t ws = cbor_serialized_size(mp);
+      h = fnv(h, &ws, sizeof ws);
+      cbor_decref(&mp); cbor_decref(&da); cbor_decref(&tx);
+    }
     if (with_shared && shared_tree) { uint64_t s = read_shared(); h = fnv(h, &s, sizeof s); }
     if (with_shared && i % 8 == 3) { struct rng r2 = {seed ^ (uint64_t)i}; handoff_step(&r2); } /* (own generator: the digest stays comparable with the solo run) */
   }
